@@ -102,6 +102,28 @@ func TestProp(t *testing.T) {
 	core.RunProp(t, "main", core.Scale(2000), genCase, Run)
 }
 
+// TestForeign: values handed over as Go strings for non-text columns, both result formats.
+func TestForeign(t *testing.T) {
+	vals := map[string][]script.Val{
+		"int2": {{T: "int2", I: 42}, {T: "int2", I: -1}}, "int4": {{T: "int4", I: 42}, {T: "int4", I: 1234}}, "int8": {{T: "int8", I: 42}, {T: "int8", I: 12345678}},
+		"bool": {{T: "bool", B: true}}, "float8": {{T: "float8", F: 0x3ff8000000000000}}, "float4": {{T: "float4", F: 0x3fc00000}},
+		"oid": {{T: "oid", I: 42}}, "date": {{T: "date", I: 366}}, "timestamp": {{T: "timestamp", I: 86400000000}},
+		"uuid": {{T: "uuid", Y: []byte("0123456789abcdef")}}, "bytea": {{T: "bytea", Y: []byte{1, 2, 3, 4}}},
+	}
+	for _, typ := range script.SortedKeys(vals) {
+		for _, v := range vals[typ] {
+			for _, f := range []int16{0, 1} {
+				core.RunCase(t, "foreign", Foreign{T: typ, Format: f, V: v}, RunForeign)
+			}
+		}
+	}
+	core.MarkExhaustive("foreign (11 non-text column types x text rendering passed as a Go string x both result formats)")
+}
+
+func TestReplayForeign(t *testing.T) {
+	core.Replay(t, map[string]func(Foreign) core.Result{"foreign": RunForeign})
+}
+
 func TestReplay(t *testing.T) {
 	core.Replay(t, map[string]func(Case) core.Result{"main": Run})
 }
